@@ -121,9 +121,11 @@ def cls_node_type_delims(r):
 
 
 def cls_predicate_id_type_marker(r):
-    """printed predicate / bound whose id starts with ^^type: (the opening quote then reads as the literal marker)"""
+    """printed predicate / bound whose id starts with ^^type: or with @[ (the opening quote then reads as the literal
+    marker, resp. as a predicate with an empty id, in lexPredicateOrLiteral)"""
     part = bytes.fromhex(r.get("part", ""))
-    return r.get("form") in ("predicate", "bound") and part.startswith(b"^^type:") and b'"' not in part
+    return (r.get("form") in ("predicate", "bound") and (part.startswith(b"^^type:") or part.startswith(b"@["))
+            and b'"' not in part)
 
 
 PRINTED_CLASSES = [("C16-trailing-backslash", cls_trailing_backslash), ("C16-node-type-delims", cls_node_type_delims),
